@@ -176,7 +176,10 @@ class Printer:
         if c == 'void':
             return '((void)0)'
         nm = 'nv_nondet_' + re.sub(r'\W+', '_', c.replace('*', 'p'))
-        self.protos[nm] = f'{c} {nm}(void);'
+        if nm not in ('nv_nondet__Bool', 'nv_nondet_double', 'nv_nondet_int64_t', 'nv_nondet_uint64_t',
+                      'nv_nondet_int32_t', 'nv_nondet_uint32_t'):
+            # DFCC asserts that body-less functions are unreachable: nondeterministic values need a body
+            self.protos[nm] = f'static {c} {nm}(void) {{ {c} x; return x; }}'
         return f'{nm}()'
 
     def lookup(self, table, key):
